@@ -5,6 +5,7 @@ import (
 	"fmt"
 	"math/big"
 	"math/rand"
+	"sort"
 	. "zharness/hz"
 
 	"github.com/zenon-network/go-zenon/chain"
@@ -19,6 +20,10 @@ import (
 func hashZ(h types.Hash) interface{} { return Big(new(big.Int).SetBytes(h.Bytes()[:5])) }
 
 var users = []*wallet.KeyPair{g.User1, g.User2, g.User3, g.User4, g.User5}
+
+// accounts with funds and plasma that never send inside momentums produced by grow: their account chains are the same on
+// every branch, apart from what the receiving node's own unconfirmed blocks add
+var quiet = []*wallet.KeyPair{g.Pillar1, g.Pillar2, g.Pillar3, g.Pillar4, g.Pillar5, g.Pillar6, g.Pillar7, g.Pillar8, g.Spork}
 
 // grow: k momentums on nd with random ZNN sends (content) and slot gaps
 func grow(nd *Node, rng *rand.Rand, k int) {
@@ -61,23 +66,60 @@ func forkPoint(l, s chain.Chain) uint64 {
 
 type delivered struct {
 	d      *nom.DetailedMomentum
-	ok     bool // passes full verification when applied in order (false = corrupted by the generator)
+	okM    bool                // the momentum itself passes verification once all its account blocks are accepted
+	badB   map[types.Hash]bool // account blocks that do not pass verification at their place, everything before accepted
 	reason string
 }
 
-// corrupt one delivered element. l is the receiving node: a block that is already in its pool is not verified
-// again by InsertChain (the pooled, verified copy is used), so tampering with the delivered copy has no effect then.
-func corrupt(rng *rand.Rand, e *delivered, src chain.Chain, l chain.Chain) {
+func (e *delivered) bad(h types.Hash) bool { return e.badB != nil && e.badB[h] }
+func (e *delivered) markBad(h types.Hash) {
+	if e.badB == nil {
+		e.badB = map[types.Hash]bool{}
+	}
+	e.badB[h] = true
+}
+
+// the unconfirmed blocks of a node in a fixed order (the pool is a map)
+func poolOf(ch chain.Chain) []*nom.AccountBlock {
+	bs := ch.GetAllUncommittedAccountBlocks()
+	sort.Slice(bs, func(i, j int) bool {
+		if c := bytes.Compare(bs[i].Address.Bytes(), bs[j].Address.Bytes()); c != 0 {
+			return c < 0
+		}
+		return bs[i].Height < bs[j].Height
+	})
+	return bs
+}
+
+// 40-bit identifier of an account
+func addrZ(a types.Address) interface{} { return Big(new(big.Int).SetBytes(a.Bytes()[:6])) }
+func blockZ(b *nom.AccountBlock) interface{} {
+	return Tup(hashZ(b.Hash), addrZ(b.Address), U64(b.Height))
+}
+
+// corrupt one delivered element. l is the receiving node; lo..hi are the heights of the batch (an extra account block is
+// never taken from a momentum of the batch itself, so that every block has one place in it).
+func corrupt(rng *rand.Rand, e *delivered, src chain.Chain, l chain.Chain, lo, hi uint64) {
 	d := e.d
 	m := d.Momentum
 	kinds := []string{"bad-signature", "wrong-producer", "wrong-changes-hash", "extra-account-block"}
 	if len(d.AccountBlocks) > 0 {
-		kinds = append(kinds, "missing-account-block", "invalid-account-block", "missing-account-block")
+		kinds = append(kinds, "missing-account-block", "invalid-account-block", "missing-account-block", "content-header-mismatch")
+	}
+	var pairs []int // positions of two consecutive blocks of one account
+	for i := 0; i+1 < len(d.AccountBlocks); i++ {
+		if d.AccountBlocks[i].Address == d.AccountBlocks[i+1].Address {
+			pairs = append(pairs, i)
+		}
+	}
+	if len(pairs) > 0 {
+		kinds = append(kinds, "swapped-account-blocks", "swapped-account-blocks")
 	}
 	kind := kinds[rng.Intn(len(kinds))]
 	switch kind {
 	case "bad-signature":
 		m.Signature[rng.Intn(len(m.Signature))] ^= byte(1 << uint(rng.Intn(8)))
+		e.okM = false
 	case "wrong-producer":
 		prod := types.PubKeyToAddress(m.PublicKey)
 		for _, kp := range g.PillarKeys {
@@ -87,29 +129,66 @@ func corrupt(rng *rand.Rand, e *delivered, src chain.Chain, l chain.Chain) {
 				break
 			}
 		}
+		e.okM = false
 	case "wrong-changes-hash":
-		kp := KeyOf(types.PubKeyToAddress(m.PublicKey))
 		m.ChangesHash[rng.Intn(32)] ^= 0x10
-		m.Hash = m.ComputeHash()
-		m.Signature = kp.Sign(m.Hash.Bytes())
+		Resign(m)
+		e.okM = false
+	case "content-header-mismatch":
+		// the momentum lists another block hash than the one delivered with it
+		c := *m.Content[rng.Intn(len(m.Content))]
+		c.Hash[rng.Intn(32)] ^= 0x01
+		nc := make(nom.MomentumContent, len(m.Content))
+		copy(nc, m.Content)
+		for i := range nc {
+			if nc[i].Address == c.Address && nc[i].Height == c.Height {
+				nc[i] = &c
+			}
+		}
+		m.Content = nc
+		Resign(m)
+		e.okM = false
 	case "missing-account-block":
 		i := rng.Intn(len(d.AccountBlocks))
+		gone := d.AccountBlocks[i]
 		d.AccountBlocks = append(append([]*nom.AccountBlock{}, d.AccountBlocks[:i]...), d.AccountBlocks[i+1:]...)
+		for _, b := range d.AccountBlocks[i:] { // the later blocks of that account have lost their previous block
+			if b.Address == gone.Address {
+				e.markBad(b.Hash)
+			}
+		}
+		e.okM = false
+	case "swapped-account-blocks":
+		// two consecutive blocks of one account are delivered in the wrong order: the first one now lacks its
+		// previous block (the momentum, which only looks the delivered blocks up, would still accept them)
+		i := pairs[rng.Intn(len(pairs))]
+		if Pooled(l, d.AccountBlocks[i]) { // the receiver would find the previous block in its pool
+			m.Signature[3] ^= 2
+			e.okM = false
+			kind = "bad-signature"
+			break
+		}
+		bs := append([]*nom.AccountBlock{}, d.AccountBlocks...)
+		bs[i], bs[i+1] = bs[i+1], bs[i]
+		d.AccountBlocks = bs
+		e.markBad(bs[i].Hash)
 	case "invalid-account-block":
+		// the delivered copy is tampered with; if the receiver holds the block in its pool when it gets there, its own
+		// verified copy is used and the delivered one is ignored (the model knows: pooled blocks are skipped)
 		b := d.AccountBlocks[rng.Intn(len(d.AccountBlocks))]
 		b.Signature[rng.Intn(len(b.Signature))] ^= 0x04
-		if l.GetPatch(b.Address, b.Identifier()) != nil {
-			e.d = WireCopy(d)
-			e.reason = kind + "(already-pooled:no-effect)"
-			return
-		}
+		e.markBad(b.Hash)
 	case "extra-account-block":
-		// a block the momentum does not list: taken from another momentum of the source chain, or made up
+		// a block the momentum does not list: taken from a momentum of the source chain outside the batch, or made up
 		var extra *nom.AccountBlock
 		fr := FrontierOf(src).Height
 		for try := 0; try < 20 && extra == nil; try++ {
-			o := DetailedAt(src, 2+uint64(rng.Intn(int(fr-1))))
-			if o != nil && o.Momentum.Height != m.Height && len(o.AccountBlocks) > 0 {
+			h := 2 + uint64(rng.Intn(int(fr-1)))
+			if h >= lo && h <= hi {
+				continue
+			}
+			o := DetailedAt(src, h)
+			if o != nil && len(o.AccountBlocks) > 0 && !Pooled(l, o.AccountBlocks[0]) {
 				extra = WireCopyBlock(o.AccountBlocks[0])
 			}
 		}
@@ -119,9 +198,10 @@ func corrupt(rng *rand.Rand, e *delivered, src chain.Chain, l chain.Chain) {
 			extra.Hash = extra.ComputeHash()
 		}
 		d.AccountBlocks = append(d.AccountBlocks, extra)
+		e.markBad(extra.Hash)
+		e.okM = false
 	}
 	e.d = WireCopy(d) // as received from the wire: cached producer / timestamps follow the bytes
-	e.ok = false
 	e.reason = kind
 }
 
@@ -192,21 +272,32 @@ func (w *world) deliver(batch []delivered, kind string, src chain.Chain) {
 	for h := uint64(1); h <= before.Height; h++ {
 		oldHashes[h] = hashAt(l.Ch, h)
 	}
+	// the unconfirmed pool of the receiving node
+	poolBefore := poolOf(l.Ch)
+	poolT := Lst()
+	inPoolBefore := map[types.Hash]*nom.AccountBlock{}
+	for _, b := range poolBefore {
+		poolT = append(poolT, blockZ(b))
+		inPoolBefore[b.Hash] = b
+	}
 	dl := Lst()
 	ds := make([]*nom.DetailedMomentum, len(batch))
-	firstBad := -1
+	deliveredBlock := map[types.Hash]bool{}
 	for i, e := range batch {
 		ds[i] = e.d
-		dl = append(dl, Tup(hashZ(e.d.Momentum.Hash), hashZ(e.d.Momentum.PreviousHash), U64(e.d.Momentum.Height), e.ok, len(e.d.AccountBlocks) > 0))
+		bl := Lst()
+		for _, b := range e.d.AccountBlocks {
+			if b.BlockType == nom.BlockTypeContractSend {
+				continue
+			}
+			bl = append(bl, Tup(hashZ(b.Hash), addrZ(b.Address), U64(b.Height), !e.bad(b.Hash)))
+			deliveredBlock[b.Hash] = true
+		}
+		dl = append(dl, Tup(hashZ(e.d.Momentum.Hash), hashZ(e.d.Momentum.PreviousHash), U64(e.d.Momentum.Height), e.okM, bl))
 	}
 	idx, err, p := tryInsert(l, ds)
 	cls, cname := errClass(err, p)
 	after := l.Frontier()
-	out.Case("insert_chain", Tup(local, dl), Tup(I64(cls), I64(int64(idx)), hashZ(after.Hash), U64(after.Height)), kind+" -> "+cname)
-	out.Count("sync:kind:" + kind)
-
-	// ---- the property itself
-	out.Oracle(p == nil, "insertchain-no-panic", M{"kind": kind, "panic": fmt.Sprint(p)})
 	// what happened to the own chain
 	abandoned := 0
 	for h := uint64(1); h <= before.Height; h++ {
@@ -214,17 +305,81 @@ func (w *world) deliver(batch []delivered, kind string, src chain.Chain) {
 			abandoned++
 		}
 	}
-	// which delivered momentums were unknown before, in order; first corrupted one among them
-	var unknown []delivered
-	for _, e := range batch {
-		if oldHashes[e.d.Momentum.Height] != e.d.Momentum.Hash {
-			unknown = append(unknown, e)
+	poolAfter := poolOf(l.Ch)
+	surv := Lst()
+	var survivors []*nom.AccountBlock
+	for _, b := range poolAfter {
+		if inPoolBefore[b.Hash] != nil && abandoned > 0 {
+			surv = append(surv, hashZ(b.Hash))
+			survivors = append(survivors, b)
 		}
 	}
+	out.Case("insert_chain", Tup(local, poolT, dl), Tup(I64(cls), I64(int64(idx)), hashZ(after.Hash), U64(after.Height), surv), kind+" -> "+cname)
+	out.Count("sync:kind:" + kind)
+	if len(poolBefore) > 0 {
+		out.Count("sync:delivery-with-pooled-blocks")
+		if abandoned > 0 {
+			out.Count("sync:rollback-with-pooled-blocks")
+		}
+	}
+
+	// ---- the property itself
+	out.Oracle(p == nil, "insertchain-no-panic", M{"kind": kind, "panic": fmt.Sprint(p)})
+	// which delivered momentums were unknown before, in order
+	var unknown []delivered
+	firstUnknown := -1
 	for i, e := range batch {
-		if !e.ok && oldHashes[e.d.Momentum.Height] != e.d.Momentum.Hash {
-			firstBad = i
-			break
+		if oldHashes[e.d.Momentum.Height] != e.d.Momentum.Hash {
+			unknown = append(unknown, e)
+			if firstUnknown < 0 {
+				firstUnknown = i
+			}
+		}
+	}
+	natural := kind != "duplicates" && kind != "reversed" && kind != "gap-inside" && kind != "crafted-height" && kind != "gap-above-fork-point"
+	var head, tail *nom.Momentum
+	extends, refuse := false, false
+	if len(unknown) > 0 {
+		head = unknown[0].d.Momentum
+		tail = batch[len(batch)-1].d.Momentum
+		linkedHead := head.Height >= 2 && oldHashes[head.Height-1] == head.PreviousHash
+		extends = head.Previous() == before.Identifier()
+		refuse = !extends && (!linkedHead || before.Height-(head.Height-1) > 30 || tail.Height <= before.Height)
+	}
+	// The first delivered element that does not pass verification in order. An account block the node has itself
+	// verified on the branch it stays on (it is in the pool when the loop gets to it, no own momentum abandoned, not
+	// replaced by a delivered block of the same account) counts as verified, whatever the delivered copy looks like;
+	// once own momentums are abandoned nothing verified before counts any more.
+	firstBad := -1
+	if len(unknown) > 0 {
+		trusted := map[types.Hash]*nom.AccountBlock{}
+		if extends {
+			for h, b := range inPoolBefore {
+				trusted[h] = b
+			}
+		}
+	scan:
+		for i := firstUnknown; i < len(batch); i++ {
+			e := batch[i]
+			for _, b := range e.d.AccountBlocks {
+				if trusted[b.Hash] != nil {
+					continue
+				}
+				if e.bad(b.Hash) {
+					firstBad = i
+					break scan
+				}
+				for h, t := range trusted {
+					if t.Address == b.Address && t.Height >= b.Height {
+						delete(trusted, h)
+					}
+				}
+				trusted[b.Hash] = b
+			}
+			if !e.okM {
+				firstBad = i
+				break scan
+			}
 		}
 	}
 	// (1) only verified momentums on the chain: every stored momentum is byte-identical to a genuinely produced one
@@ -237,6 +392,37 @@ func (w *world) deliver(batch []delivered, kind string, src chain.Chain) {
 		}
 	}
 	out.Oracle(okStored, "insertchain-holds-only-verified-momentums", M{"kind": kind})
+	// (1b) ... and only verified account blocks: every block of a momentum adopted by this call acknowledges a momentum
+	// that is on the chain, below the momentum that confirms it
+	for h := uint64(2); h <= after.Height; h++ {
+		if h <= before.Height && hashAt(l.Ch, h) == oldHashes[h] {
+			continue
+		}
+		d := DetailedAt(l.Ch, h)
+		for _, b := range d.AccountBlocks {
+			ack := b.MomentumAcknowledged
+			out.Oracle(OnChain(l.Ch, ack) && ack.Height < h, "adopted-block-acknowledges-momentum-on-chain",
+				M{"kind": kind, "momentum_height": U64(h), "block_account_height": U64(b.Height), "acknowledged_height": U64(ack.Height),
+					"was_in_own_pool": inPoolBefore[b.Hash] != nil, "abandoned_own_momentums": abandoned})
+		}
+	}
+	// (1c) the unconfirmed blocks the node holds afterwards are verified on ITS chain as well
+	for _, b := range poolAfter {
+		out.Oracle(OnChain(l.Ch, b.MomentumAcknowledged), "pooled-block-acknowledges-momentum-on-chain",
+			M{"kind": kind, "acknowledged_height": U64(b.MomentumAcknowledged.Height), "frontier": U64(after.Height),
+				"was_in_pool_before": inPoolBefore[b.Hash] != nil, "abandoned_own_momentums": abandoned})
+	}
+	// (1d) giving up own momentums gives up everything verified on top of them: an unconfirmed block that is still in the
+	// pool afterwards was delivered with the new branch (and verified there)
+	if abandoned > 0 {
+		okDrop := true
+		for _, b := range survivors {
+			if !deliveredBlock[b.Hash] {
+				okDrop = false
+			}
+		}
+		out.Oracle(okDrop, "rollback-drops-unconfirmed-pool", M{"kind": kind, "pooled_before": len(poolBefore), "kept": len(survivors), "abandoned_own_momentums": abandoned})
+	}
 	// (2) leaving the own chain implies: linked to an own momentum at most 30 below the frontier, strictly longer delivered chain
 	if abandoned > 0 {
 		tail := batch[len(batch)-1].d.Momentum
@@ -257,14 +443,13 @@ func (w *world) deliver(batch []delivered, kind string, src chain.Chain) {
 	}
 	// (4) failure index. The batch is refused as a whole (index 0, nothing changed) when its first unknown momentum does not
 	// sit on one of ours, sits more than 30 below the frontier, or the batch does not end above the frontier; otherwise
-	// an error must name the first element that does not verify, and a batch of genuine linked momentums must be accepted.
-	natural := kind != "duplicates" && kind != "reversed" && kind != "gap-inside" && kind != "crafted-height" && kind != "gap-above-fork-point"
+	// an error must name the first element OF THE DELIVERED BATCH (known prefix included) that does not verify, the node
+	// stops on the element before it, and a batch of genuine linked momentums must be accepted.
+	if len(batch) > 0 {
+		out.Oracle(cls != 1 || (idx >= 0 && idx < len(batch)), "insertchain-error-index-within-batch", M{"kind": kind, "index": idx, "len": len(batch)})
+	}
 	if len(unknown) > 0 && natural {
-		head := unknown[0].d.Momentum
-		tail := batch[len(batch)-1].d.Momentum
-		linkedHead := head.Height >= 2 && oldHashes[head.Height-1] == head.PreviousHash
-		extends := head.Previous() == before.Identifier()
-		refuse := !extends && (!linkedHead || before.Height-(head.Height-1) > 30 || tail.Height <= before.Height)
+		known := fmt.Sprintf("known-prefix:%d", min(firstUnknown, 6))
 		switch {
 		case refuse:
 			out.Oracle(cls == 1 && idx == 0 && after.Identifier() == before.Identifier(), "insertchain-refuses-unlinked-deep-or-not-longer",
@@ -272,24 +457,240 @@ func (w *world) deliver(batch []delivered, kind string, src chain.Chain) {
 			out.Count("sync:refused")
 		case firstBad >= 0:
 			out.Oracle(cls == 1 && idx == firstBad, "insertchain-reports-index-of-failing-momentum",
-				M{"kind": kind, "index": idx, "first_bad": firstBad, "class": cname, "corruption": batch[firstBad].reason})
+				M{"kind": kind, "index": idx, "first_bad": firstBad, "known_prefix": firstUnknown, "class": cname, "corruption": batch[firstBad].reason})
+			last := head.PreviousHash
+			if firstBad > firstUnknown {
+				last = batch[firstBad-1].d.Momentum.Hash
+			}
+			out.Oracle(after.Hash == last, "insertchain-stops-at-last-verified-element",
+				M{"kind": kind, "index": idx, "first_bad": firstBad, "known_prefix": firstUnknown, "frontier_after": U64(after.Height), "corruption": batch[firstBad].reason})
+			fk := "extension"
+			if !extends {
+				fk = "fork"
+			}
+			out.Count("sync:invalid-element:" + fk + ":" + known)
+			out.Count(fmt.Sprintf("sync:invalid-element:%s:unknown-before-it:%d", fk, min(firstBad-firstUnknown, 6)))
 		default:
 			out.Oracle(cls == 0 && after.Hash == tail.Hash, "insertchain-accepts-valid-linked-chain", M{"kind": kind, "index": idx, "err": fmt.Sprint(err)})
+			out.Count("sync:accepted:" + known)
 		}
 	}
 	// (5) re-delivering known momentums changes nothing
 	if len(unknown) == 0 && len(batch) > 0 {
-		out.Oracle(cls == 0 && idx == 0 && after.Identifier() == before.Identifier(), "insertchain-known-redelivery-changes-nothing",
+		okPool := len(poolAfter) == len(poolBefore)
+		for _, b := range poolAfter {
+			okPool = okPool && inPoolBefore[b.Hash] != nil
+		}
+		out.Oracle(cls == 0 && idx == 0 && after.Identifier() == before.Identifier() && okPool, "insertchain-known-redelivery-changes-nothing",
 			M{"kind": kind, "class": cname})
 	}
+}
+
+func min(a, b int) int {
+	if a < b {
+		return a
+	}
+	return b
 }
 
 func (w *world) segment(src chain.Chain, lo, hi uint64) []delivered {
 	var r []delivered
 	for _, d := range WireCopyAll(DetailedRange(src, lo, hi)) {
-		r = append(r, delivered{d: d, ok: true})
+		r = append(r, delivered{d: d, okM: true})
 	}
 	return r
+}
+
+// unknown part of s's chain up to hi, preceded by k momentums the local node already has (as far as there are any)
+func (w *world) span(s *Node, fp uint64, k int, hi uint64) []delivered {
+	lo := fp + 1
+	for ; k > 0 && lo > 2; k-- {
+		lo--
+	}
+	return w.segment(s.Ch, lo, hi)
+}
+
+// number of already known momentums in front of a batch
+func (w *world) prefixLen() int {
+	switch w.rng.Intn(6) {
+	case 0, 1:
+		return 0
+	case 2:
+		return 1
+	case 3:
+		return 2
+	default:
+		return 1 + w.rng.Intn(6)
+	}
+}
+
+// fillPool: the receiving node gets unconfirmed account blocks the way a running node does (generated by a wallet on
+// that node / broadcast by a peer: verified against its own chain, then pooled). They acknowledge its frontier or one
+// of its recent momentums.
+func (w *world) fillPool() {
+	rng, l := w.rng, w.l
+	lf := l.Frontier()
+	for n := 1 + rng.Intn(3); n > 0; n-- {
+		from, to := users[rng.Intn(len(users))], users[rng.Intn(len(users))]
+		if rng.Intn(2) == 0 {
+			from = quiet[rng.Intn(len(quiet))]
+		}
+		if len(l.Ch.GetUncommittedAccountBlocksByAddress(from.Address)) > 0 && rng.Intn(3) != 0 {
+			continue // mostly one unconfirmed block per account, sometimes a chain of them
+		}
+		ack := types.HashHeight{}
+		if back := uint64(rng.Intn(4)); back > 0 && lf.Height > back+1 && rng.Intn(2) == 0 {
+			m, _ := l.Ch.GetFrontierMomentumStore().GetMomentumByHeight(lf.Height - back)
+			ack = m.Identifier()
+		}
+		tx, err := MakeSend(l.Sv, from, to.Address, int64(1+rng.Intn(999)), ack)
+		if err == nil {
+			err = Broadcast(l.Br, tx.Block)
+		}
+		if err != nil {
+			w.out.Count("sync:pool-fill:refused")
+			continue
+		}
+		w.out.Count("sync:pool-fill:ok")
+	}
+}
+
+// pooledDelivery: a batch from s whose last-but-k momentum carries account blocks the receiving node holds unconfirmed.
+// s gets them as a broadcast first (its verifier decides: valid on s's chain -> an honest pillar includes them); the ones
+// s refuses are put into the momentum WITHOUT verification (a faulty pillar: ForceAddAccountBlockTransaction, or, when
+// even the pool of s cannot take them, written into the content of a momentum after it was generated). For an honest
+// verifier the delivered chain is invalid at that momentum. s is restored afterwards.
+func (w *world) pooledDelivery(s *Node) {
+	rng, l, out := w.rng, w.l, w.out
+	if len(l.Ch.GetAllUncommittedAccountBlocks()) == 0 {
+		w.fillPool()
+	}
+	pool := poolOf(l.Ch)
+	if len(pool) == 0 {
+		return
+	}
+	lf := FrontierOf(l.Ch).Height
+	if sf := FrontierOf(s.Ch).Height; sf < lf { // the delivered chain is to be longer than the local one
+		if lf-sf > 8 {
+			return
+		}
+		grow(s, rng, int(lf-sf)+rng.Intn(2))
+	} else if rng.Intn(2) == 0 {
+		grow(s, rng, 1+rng.Intn(2))
+	}
+	w.remember(s)
+	fp := forkPoint(l.Ch, s.Ch)
+	depth := lf - fp
+	if depth > 30 {
+		return
+	}
+	// does the account of the block have blocks in the momentums that are going to be rolled back?
+	touched := map[types.Address]bool{}
+	for h := fp + 1; h <= lf; h++ {
+		for _, b := range DetailedAt(l.Ch, h).AccountBlocks {
+			touched[b.Address] = true
+		}
+	}
+	h0 := FrontierOf(s.Ch).Height
+	var forced, inject []*nom.AccountBlock
+	legit := 0
+	for _, b := range pool {
+		if rng.Intn(3) == 0 && len(pool) > 1 {
+			continue
+		}
+		where := "account-without-blocks-in-abandoned-momentums"
+		if touched[b.Address] {
+			where = "account-with-blocks-in-abandoned-momentums"
+		}
+		if depth == 0 {
+			where = "extension"
+		}
+		ackOwn := "acknowledges-common-momentum"
+		if b.MomentumAcknowledged.Height > fp {
+			ackOwn = "acknowledges-momentum-of-own-branch"
+		}
+		if ch, _ := s.Ch.GetFrontierMomentumStore().GetBlockConfirmationHeight(b.Hash); ch != 0 {
+			out.Count("sync:pooled-block-delivered:already-confirmed-on-source")
+			continue // an earlier momentum of s has it; it travels with that one
+		}
+		if Broadcast(BridgeOf(s), b) == nil {
+			legit++
+			out.Count("sync:pooled-block-delivered:valid-on-source:" + where + ":" + ackOwn)
+			continue
+		}
+		if dump := PatchDumpOf(l.Ch, b); dump != nil && ForcePool(s.Ch, b, dump) == nil && Pooled(s.Ch, b) {
+			forced = append(forced, b)
+			out.Count("sync:pooled-block-delivered:unverified-by-producer:" + where + ":" + ackOwn)
+			continue
+		}
+		inject = append(inject, b)
+		out.Count("sync:pooled-block-delivered:written-into-content:" + where + ":" + ackOwn)
+	}
+	if legit+len(forced)+len(inject) == 0 {
+		return
+	}
+	evilAt := uint64(0)
+	if legit+len(forced) > 0 {
+		if err := ProduceAt(s, 10); err != nil {
+			panic(err)
+		}
+		if len(forced) > 0 {
+			evilAt = FrontierOf(s.Ch).Height
+		} else {
+			w.remember(s)
+		}
+	}
+	var last *delivered
+	if len(inject) > 0 {
+		tx, blocks, err := BuildNext(s, FrontierOf(s.Ch), 10, true)
+		if err != nil {
+			panic(err)
+		}
+		m := tx.Momentum
+		all := append([]*nom.AccountBlock{}, blocks...)
+		for _, b := range inject {
+			all = append(all, WireCopyBlock(b))
+		}
+		m.Content = nom.NewMomentumContent(all)
+		Resign(m)
+		last = &delivered{d: WireCopy(&nom.DetailedMomentum{Momentum: m, AccountBlocks: all}), okM: false, reason: "own-pooled-block-of-other-branch(written-into-content)"}
+		for _, b := range inject {
+			last.markBad(b.Hash)
+		}
+	} else if k := rng.Intn(3); k > 0 { // momentums on top of the one with the pooled blocks
+		grow(s, rng, k)
+		if evilAt == 0 {
+			w.remember(s)
+		}
+	}
+	batch := w.span(s, fp, w.prefixLen(), FrontierOf(s.Ch).Height)
+	for i := range batch {
+		if batch[i].d.Momentum.Height == evilAt {
+			for _, b := range forced {
+				batch[i].markBad(b.Hash)
+			}
+			batch[i].reason = "own-pooled-block-of-other-branch(unverified-by-producer)"
+		}
+	}
+	if last != nil {
+		batch = append(batch, *last)
+	}
+	kind := fmt.Sprintf("own-pooled-blocks-in-fork-depth%02d", depth)
+	if depth == 0 {
+		kind = "own-pooled-blocks-in-extension"
+	}
+	switch {
+	case len(forced)+len(inject) == 0:
+		kind += "(valid)"
+	default:
+		kind += "(invalid)"
+	}
+	w.deliver(batch, kind, s.Ch)
+	if evilAt > 0 { // s goes back to its honest chain; its pool is dropped with the momentums
+		if err := s.RollbackTo(h0); err != nil {
+			panic(err)
+		}
+	}
 }
 
 // one delivery of a random kind from source node s
@@ -336,7 +737,7 @@ func (w *world) randomDelivery(s *Node) {
 	if depth > 30 {
 		tagDepth = "depth>30"
 	}
-	switch k := rng.Intn(16); {
+	switch k := rng.Intn(18); {
 	case k < 4:
 		kind := "fork-" + tagDepth
 		if depth == 0 {
@@ -344,50 +745,58 @@ func (w *world) randomDelivery(s *Node) {
 		}
 		w.deliver(w.segment(s.Ch, fp+1, pickHi()), kind, s.Ch)
 	case k < 6:
-		o := uint64(1 + rng.Intn(4))
-		lo := fp + 1
-		if lo > o+1 {
-			lo -= o
-		} else {
-			lo = 2
+		w.deliver(w.span(s, fp, 1+rng.Intn(4), pickHi()), "overlap", s.Ch)
+	case k < 12:
+		// an invalid element at any position of a batch that starts with 0..k known momentums
+		hi := pickHi()
+		if rng.Intn(2) == 0 {
+			hi = sf // longer batches: room in front of and behind the invalid element
 		}
-		w.deliver(w.segment(s.Ch, lo, pickHi()), "overlap", s.Ch)
-	case k < 10:
-		b := w.segment(s.Ch, fp+1, pickHi())
-		i := rng.Intn(len(b))
-		corrupt(rng, &b[i], s.Ch, w.l.Ch)
+		b := w.span(s, fp, w.prefixLen(), hi)
+		nk := 0
+		for nk < len(b) && b[nk].d.Momentum.Height <= fp {
+			nk++
+		}
+		i := nk + rng.Intn(len(b)-nk)
+		if nk > 0 && rng.Intn(8) == 0 {
+			i = rng.Intn(nk) // inside the known part
+		}
+		corrupt(rng, &b[i], s.Ch, w.l.Ch, b[0].d.Momentum.Height, b[len(b)-1].d.Momentum.Height)
 		kind := "invalid-in-fork-" + tagDepth
 		if depth == 0 {
 			kind = "invalid-in-extension"
 		}
+		if i < nk {
+			kind = "invalid-in-known-part"
+		}
 		w.out.Count("sync:corruption:" + b[i].reason)
-		w.out.Count(fmt.Sprintf("sync:invalid-position:%d-of-%d", i, len(b)))
+		w.out.Count(fmt.Sprintf("sync:invalid-position:known%d+%d-of-%d", min(nk, 6), min(i-nk, 8), min(len(b)-nk, 12)))
 		w.deliver(b, kind, s.Ch)
-	case k == 10:
+	case k == 12:
 		if fp >= 2 {
 			lo := 2 + uint64(rng.Intn(int(fp-1)))
 			w.deliver(w.segment(s.Ch, lo, fp), "all-known", s.Ch)
 		}
-	case k == 11:
+	case k == 13:
 		if sf >= fp+2 {
 			w.deliver(w.segment(s.Ch, fp+2+uint64(rng.Intn(int(sf-fp-1))), sf), "gap-above-fork-point", s.Ch)
 		}
-	case k == 12:
+	case k == 14:
 		b := w.segment(s.Ch, fp+1, pickHi())
 		if len(b) >= 3 {
 			i := 1 + rng.Intn(len(b)-2)
 			b = append(b[:i], b[i+1:]...)
 			w.deliver(b, "gap-inside", s.Ch)
 		}
-	case k == 13:
+	case k == 15:
 		b := w.segment(s.Ch, fp+1, pickHi())
 		i := rng.Intn(len(b))
-		dup := delivered{d: WireCopy(b[i].d), ok: true}
+		dup := delivered{d: WireCopy(b[i].d), okM: true}
 		nb := append([]delivered{}, b[:i+1]...)
 		nb = append(nb, dup)
 		nb = append(nb, b[i+1:]...)
 		w.deliver(nb, "duplicates", s.Ch)
-	case k == 14:
+	case k == 16:
 		b := w.segment(s.Ch, fp+1, pickHi())
 		if len(b) >= 2 {
 			for i, j := 0, len(b)-1; i < j; i, j = i+1, j-1 {
@@ -406,18 +815,21 @@ func (w *world) randomDelivery(s *Node) {
 		default:
 			b[0].d.Momentum.Height = ^uint64(0) - uint64(rng.Intn(3))
 		}
-		b[0].ok = false
+		b[0].okM = false
 		w.deliver(b, "crafted-height", s.Ch)
 	}
 }
 
 func runSync(rng *rand.Rand, n int, out *Out, _ []string) {
+	reproduced := false // the F11 reproducer runs in the first history whose local chain allows it
 	for h := 0; h < n; h++ {
-		syncHistory(rng, out, h == 0)
+		if syncHistory(rng, out, !reproduced) {
+			reproduced = true
+		}
 	}
 }
 
-func syncHistory(rng *rand.Rand, out *Out, first bool) {
+func syncHistory(rng *rand.Rand, out *Out, first bool) (reproduced bool) {
 	a := NewNode()
 	defer a.Stop()
 	b := NewNode()
@@ -461,41 +873,57 @@ func syncHistory(rng *rand.Rand, out *Out, first bool) {
 	}
 
 	if first {
-		// F11 reproducer, every run: the local node is on a's branch, b's branch is longer, its second unknown
-		// momentum has a bad signature -> own momentums are rolled back before anything of b was verified
-		for FrontierOf(b.Ch).Height <= FrontierOf(w.l.Ch).Height+1 {
-			grow(b, rng, 2)
-			w.remember(b)
+		// F11 reproducer, every run: the local node is on one branch (own), the other branch (side) is longer, its second
+		// unknown momentum has a bad signature -> own momentums are rolled back before anything of side was verified
+		own, side := a, b
+		if lf := FrontierOf(w.l.Ch).Height; forkPoint(w.l.Ch, b.Ch) == lf && forkPoint(w.l.Ch, a.Ch) < lf {
+			own, side = b, a // the boundary deliveries have moved the local node to b's branch
 		}
-		fp := forkPoint(w.l.Ch, b.Ch)
-		if FrontierOf(w.l.Ch).Height == fp { // local must have own momentums above the fork point
-			if _, err, p := tryInsert(w.l, WireCopyAll(DetailedRange(a.Ch, fp+1, FrontierOf(a.Ch).Height))); err != nil || p != nil {
-				panic("cannot extend local")
+		fp := forkPoint(w.l.Ch, side.Ch)
+		if FrontierOf(w.l.Ch).Height == fp && FrontierOf(own.Ch).Height > fp && forkPoint(w.l.Ch, own.Ch) == fp {
+			// local must have own momentums above the fork point
+			if _, err, p := tryInsert(w.l, WireCopyAll(DetailedRange(own.Ch, fp+1, FrontierOf(own.Ch).Height))); err != nil || p != nil {
+				panic(fmt.Sprint("cannot extend local: ", err, p))
 			}
 		}
 		if FrontierOf(w.l.Ch).Height-fp <= 30 && FrontierOf(w.l.Ch).Height > fp {
-			for FrontierOf(b.Ch).Height <= FrontierOf(w.l.Ch).Height+1 {
-				grow(b, rng, 2)
-				w.remember(b)
+			for FrontierOf(side.Ch).Height <= FrontierOf(w.l.Ch).Height+1 {
+				grow(side, rng, 2)
+				w.remember(side)
 			}
-			seg := w.segment(b.Ch, fp+1, FrontierOf(b.Ch).Height)
+			seg := w.segment(side.Ch, fp+1, FrontierOf(side.Ch).Height)
 			seg[1].d.Momentum.Signature[5] ^= 1
 			seg[1].d = WireCopy(seg[1].d)
-			seg[1].ok, seg[1].reason = false, "bad-signature"
-			w.deliver(seg, "F11-reproducer", b.Ch)
+			seg[1].okM, seg[1].reason = false, "bad-signature"
+			w.deliver(seg, "F11-reproducer", side.Ch)
+			reproduced = true
 		}
 	}
 	steps := 8 + rng.Intn(8)
 	for s := 0; s < steps; s++ {
-		src := a
+		src, other := a, b
 		if rng.Intn(2) == 0 {
-			src = b
+			src, other = b, a
 		}
 		if rng.Intn(4) == 0 {
 			grow(src, rng, 1+rng.Intn(6))
 			w.remember(src)
 		}
-		w.randomDelivery(src)
+		// the branch the local node is not on overtakes it: forks keep coming, from a fork point that falls behind
+		if lf, sf := FrontierOf(w.l.Ch).Height, FrontierOf(src.Ch).Height; rng.Intn(3) == 0 && sf <= lf && lf-sf < 8 &&
+			forkPoint(w.l.Ch, src.Ch) < lf && forkPoint(w.l.Ch, other.Ch) == lf {
+			grow(src, rng, int(lf-sf)+1+rng.Intn(3))
+			w.remember(src)
+		}
+		switch rng.Intn(8) {
+		case 0, 1:
+			w.fillPool()
+			w.randomDelivery(src)
+		case 2, 3:
+			w.pooledDelivery(src)
+		default:
+			w.randomDelivery(src)
+		}
 	}
 	// ORACLE: every momentum (and its account blocks) of the resulting chain re-verifies on a fresh node
 	fresh := OpenBare("")
@@ -511,4 +939,5 @@ func syncHistory(rng *rand.Rand, out *Out, first bool) {
 		}
 	}
 	out.Oracle(okAll && FrontierOf(fresh.Ch).Hash == FrontierOf(w.l.Ch).Hash, "resulting-chain-reverifies-on-fresh-node", detail)
+	return
 }
